@@ -1,6 +1,7 @@
 mod checks;
 mod corpus;
 mod engine;
+mod guard;
 mod io;
 mod native;
 mod product;
@@ -13,6 +14,9 @@ mod symcell;
 mod term;
 
 use std::process::exit;
+
+#[global_allocator]
+static GLOBAL: guard::GuardAlloc = guard::GuardAlloc;
 
 fn usage() -> ! {
     eprintln!("usage: symx check <PROPERTY> [--tier quick|thorough] | symx replay <file> | symx selftest");
@@ -36,6 +40,7 @@ fn main() {
             if args.len() < 3 {
                 usage();
             }
+            guard::init();
             exit(props::replay_file(&args[2]));
         }
         "hunt" => {
@@ -59,6 +64,7 @@ fn main() {
                 usage();
             }
             engine::install_panic_hook();
+            guard::init();
             let w = args.get(4).and_then(|s| s.parse().ok()).unwrap_or(8);
             let tier = std::env::var("VERIF_TIER").unwrap_or_else(|_| "quick".into());
             exit(props::run_one(&args[2], &args[3], w, &tier));
@@ -69,12 +75,17 @@ fn main() {
             }
             let mut tier = std::env::var("VERIF_TIER").unwrap_or_else(|_| "quick".into());
             let mut part: Option<String> = None;
+            let mut worker = false;
             let mut i = 3;
             while i < args.len() {
                 match args[i].as_str() {
                     "--tier" => {
                         tier = args.get(i + 1).cloned().unwrap_or(tier);
                         i += 2;
+                    }
+                    "--worker" => {
+                        worker = true;
+                        i += 1;
                     }
                     "--part" => {
                         part = args.get(i + 1).cloned();
@@ -84,7 +95,8 @@ fn main() {
                 }
             }
             engine::install_panic_hook();
-            exit(props::run_check(&args[2], &tier, part.as_deref()));
+            guard::init();
+            exit(props::run_check(&args[2], &tier, part.as_deref(), worker));
         }
         _ => usage(),
     }
